@@ -378,7 +378,8 @@ def _(c):
 # the same from instances that really solved something before (successfully or not), with the caller keeping and editing
 # an earlier result, and with the atoms' values changed in between
 HISTORIES = [("bare-atom-result-edited", ["a"], True), ("sum-then-product", ["a + b", "b"], True), ("failed-part-way", ["a < b +", "a * (b + d"], False),
-             ("failed-then-succeeded", ["f * sin(a, b)", "a"], True), ("same-expression-before", None, False)]
+             ("failed-then-succeeded", ["f * sin(a, b)", "a"], True), ("same-expression-before", None, False),
+             ("same-expression-before-result-edited", None, True)]
 
 
 def _history_pre(text, ast, hist, edit):
@@ -416,6 +417,11 @@ def _(c):
             continue
         L, Rj = JUNK[i % len(JUNK)]
         c.scenario(f"{text.strip() or '<empty>'} after {'.'.join(L) or '-'}|{'.'.join(Rj) or '-'}", _dirty_pre(text, None, L, Rj))
+    # asked again: the instance solved something, was then given the ill-formed string (refused), and is given it once more
+    for i, text in enumerate(texts):
+        if text.strip() in ("==", "!=") or i % 3:
+            continue
+        c.scenario(f"{text.strip() or '<empty>'} asked twice", _history_pre(text, None, ["a + b", text] if i % 2 else [text], False))
     c.requires("all([env[n] > 0 for n in env])")
     c.raises("True", label="same-error-as-a-fresh-instance")
 
